@@ -816,6 +816,43 @@ func (in *Inst) scanContractMods(lp *Loop, con *Contract, c *ssa.CallCommon, cal
 				*unknownMem = true
 			}
 		case modField:
+			if sel, ok := mi.Expr.(*ast.SelectorExpr); ok {
+				ghost := false
+				// x.f where x is a parameter bound to a loop-invariant actual: only that object changes
+				baseRef := ""
+				if id, isId := sel.X.(*ast.Ident); isId && lp != nil {
+					var actuals []ssa.Value
+					if c.IsInvoke() {
+						actuals = append(actuals, c.Value)
+					}
+					actuals = append(actuals, c.Args...)
+					names := con.Params
+					for i, pn := range names {
+						if pn == id.Name && i < len(actuals) && in.definedOutside(lp, actuals[i]) {
+							if bv, ok := in.vals[actuals[i]]; ok && (bv.K == KRef) {
+								baseRef = bv.T
+							}
+						}
+					}
+				}
+				for k := range e.W.ghosts {
+					if strings.HasSuffix(k, "."+sel.Sel.Name) && strings.Count(k, ".") == 2 {
+						comp := "gf:" + k
+						g := e.W.ghosts[k]
+						e.regComp(comp, "(Array Int "+g.Sort+")")
+						if baseRef != "" && !m.comps[comp] {
+							m.fieldAt[comp] = append(m.fieldAt[comp], baseRef)
+						} else {
+							delete(m.fieldAt, comp)
+							m.comps[comp] = true
+						}
+						ghost = true
+					}
+				}
+				if ghost {
+					continue
+				}
+			}
 			comps := e.W.fieldCompsOf(e, con, mi)
 			for _, name := range comps {
 				delete(m.fieldAt, name)
